@@ -26,7 +26,7 @@ KW = ["delta", "max_buckets", "new_sample_thresh", "window_size_thresh", "subwin
 
 def scenarios(tier):
     k = 1 if tier == "quick" else 10
-    return [("adwin", 700 * k), ("adwin_m1", 200 * k), ("accuracy", 250 * k)]
+    return [("adwin", 2000 * k), ("adwin_m1", 600 * k), ("accuracy", 700 * k)]
 
 
 def _cfg(rng, scenario):
